@@ -21,7 +21,31 @@ IfLists(T) == {<<>>} \cup {<<i>> : i \in NodeSideIfs(T)} \cup
               {<<i, j>> : i \in NodeSideIfs(T), j \in NodeSideIfs(T)} \cup {<<"stale/iface">>} \cup
               {<<i, "stale/iface">> : i \in NodeSideIfs(T)}
 
-Ops(T) ==
+\* substrate models: explicit ids (supplied by the recorder), node-level services with their own interfaces, explicit links
+TrunkIfs(T) == {p \in El(T) : Cls(T, p) = CP /\ T.el[p].type \in {"TrunkPort", "DedicatedPort", "SharedPort", "FacilityPort"}}
+NodeSvcs(T) == {p \in Services(T) : T.el[p].par # "" /\ Cls(T, T.el[p].par) = NN}
+SubstrateOps(T) ==
+         {[op |-> "AddNode", name |-> n, site |-> "S1", ntype |-> t, rp |-> <<>>] : n \in NodeNames \cup {"!x"}, t \in {"Server", "Switch"}}
+    \cup {[op |-> "RemoveNode", name |-> n] : n \in NodeNames \cup {"f1"}}
+    \cup {[op |-> "AddComponent", n |-> n, name |-> c, model |-> m] : n \in Nodes(T), c \in CompNames, m \in {"nic2", "nic1", "gpu", "nosuch"}}
+    \cup {[op |-> "RemoveComponent", n |-> n, name |-> c] : n \in Nodes(T), c \in CompNames}
+    \cup {[op |-> "AddStorage", n |-> n, name |-> "st1"] : n \in Nodes(T)}
+    \cup {[op |-> "AddNodeService", n |-> n, name |-> "ns1", nstype |-> t] : n \in Nodes(T), t \in {"MPLS", "VLAN"}}
+    \cup {[op |-> "RemoveNodeService", n |-> n, name |-> "ns1"] : n \in Nodes(T)}
+    \cup {[op |-> "AddInterface", s |-> s, name |-> i, itype |-> "TrunkPort"] : s \in NodeSvcs(T), i \in {"i1", "i2", "!x"}}
+    \cup {[op |-> "AddLink", name |-> l, ltype |-> lt, ifs |-> ifs] : l \in {"l1"}, lt \in {"Patch", "L2Path"},
+              ifs \in {<<i, j>> : i \in TrunkIfs(T), j \in TrunkIfs(T) \cup {"stale/iface"}} \cup {<<>>} \cup {<<"stale/iface">>}}
+    \cup {[op |-> "RemoveLink", name |-> n] : n \in {"l1"}}
+    \cup {[op |-> "AddFacility", name |-> "f1", site |-> "S1", rp |-> <<>>]}
+    \cup {[op |-> "RemoveFacility", name |-> n] : n \in {"f1", "n1"}}
+    \cup {[op |-> "AddSwitch", name |-> "sw1", site |-> "S1", nports |-> 2], [op |-> "RemoveSwitch", name |-> "sw1"],
+          [op |-> "RemoveSwitch", name |-> "n1"]}
+    \cup {[op |-> "SetProp", p |-> p, kind |-> "rp", pname |-> "Capacities", val |-> [core |-> "i:2"]] : p \in Nodes(T)}
+    \cup {[op |-> "Rename", p |-> p, new |-> "r9"] : p \in Nodes(T)}
+    \cup {[op |-> "Views"], [op |-> "Validate"]}
+    \cup {[op |-> "HandleIfs", p |-> p] : p \in NodeSvcs(T)}
+
+ExperimentOps(T) ==
          {[op |-> "AddNode", name |-> n, site |-> s, ntype |-> "VM", rp |-> <<>>] : n \in NodeNames \cup {"!x"}, s \in Sites}
     \cup {[op |-> "RemoveNode", name |-> n] : n \in NodeNames \cup {"f1"}}
     \cup {[op |-> "AddComponent", n |-> n, name |-> c, model |-> m] : n \in Nodes(T), c \in CompNames, m \in ModelKeys \cup {"nosuch"}}
@@ -39,6 +63,7 @@ Ops(T) ==
        \cup {[op |-> "AddSubInterface", i |-> i, name |-> "sub1", vlan |-> v] : i \in DedPorts(T), v \in {"100", ""}}
        \cup {[op |-> "RemoveSubInterface", i |-> i, name |-> "sub1"] : i \in DedPorts(T)}
        \cup {[op |-> "RemoveLink", name |-> T.el[l].name] : l \in Links(T)}
+
        \cup {[op |-> "Rename", p |-> p, new |-> n] : p \in Nodes(T) \cup TopSvcs(T), n \in {"n2", "r9"}}
        \cup {[op |-> "SetProp", p |-> p, kind |-> "rp", pname |-> "Capacities", val |-> [core |-> "i:2"]] : p \in Nodes(T)}
        \cup {[op |-> "SetProp", p |-> p, kind |-> "sp", pname |-> "Site", val |-> "S2"] : p \in Nodes(T) \cup TopSvcs(T)}
@@ -46,6 +71,8 @@ Ops(T) ==
           ELSE {})
     \cup {[op |-> "Views"], [op |-> "Validate"]}
     \cup {[op |-> "HandleIfs", p |-> p] : p \in TopSvcs(T) \cup DedPorts(T)}
+
+Ops(T) == IF Flavour = "substrate" THEN SubstrateOps(T) ELSE ExperimentOps(T)
 
 N(name, site) == [op |-> "AddNode", name |-> name, site |-> site, ntype |-> "VM", rp |-> <<>>]
 C(n, name, m) == [op |-> "AddComponent", n |-> n, name |-> name, model |-> m]
@@ -55,6 +82,20 @@ SeedOps ==
       [] Seed = "svc"   -> << N("n1", "S1"), C("n1", "c1", "nic2"), N("n2", "S1"), C("n2", "c1", "nic2"),
                               [op |-> "AddService", name |-> "s1", nstype |-> "L2Bridge", site |-> "", rp |-> <<>>,
                                ifs |-> <<"n1/c1/n1-c1-l2ovs/c1-p1", "n2/c1/n2-c1-l2ovs/c1-p1">>] >>
+      [] Seed = "sub"   -> << [op |-> "AddNode", name |-> "n1", site |-> "S1", ntype |-> "Switch", rp |-> <<>>],
+                              [op |-> "AddNodeService", n |-> "n1", name |-> "ns1", nstype |-> "MPLS"],
+                              [op |-> "AddInterface", s |-> "n1/ns1", name |-> "i1", itype |-> "TrunkPort"],
+                              [op |-> "AddNode", name |-> "n2", site |-> "S1", ntype |-> "Server", rp |-> <<>>],
+                              [op |-> "AddComponent", n |-> "n2", name |-> "c1", model |-> "nic2"] >>
+      \* a richer seed: sub-interface connected to a service, a facility, two peered services
+      [] Seed = "rich"  -> << N("n1", "S1"), C("n1", "c1", "nic2"), N("n2", "S2"), C("n2", "c1", "nic2"),
+                              [op |-> "AddSubInterface", i |-> "n1/c1/n1-c1-l2ovs/c1-p2", name |-> "sub1", vlan |-> "100"],
+                              [op |-> "AddFacility", name |-> "f1", site |-> "S1", rp |-> <<>>],
+                              [op |-> "AddService", name |-> "s1", nstype |-> "L2STS", site |-> "", rp |-> <<>>,
+                               ifs |-> <<"n1/c1/n1-c1-l2ovs/c1-p1", "n2/c1/n2-c1-l2ovs/c1-p1">>],
+                              [op |-> "AddService", name |-> "s2", nstype |-> "L2Bridge", site |-> "", rp |-> <<>>,
+                               ifs |-> <<"n1/c1/n1-c1-l2ovs/c1-p2/sub1", "f1/f1-ns/f1-int">>],
+                              [op |-> "Peer", a |-> "svc:s1", b |-> "svc:s2"] >>
 RECURSIVE RunAll(_, _, _)
 RunAll(T, ops, i) == IF i > Len(ops) THEN T ELSE RunAll(Apply(T, ops[i]).st, ops, i + 1)
 
